@@ -84,6 +84,7 @@ type Engine struct {
 	fnModel  map[*ssa.Function]modelFn
 	consts   map[*ssa.Const]Value
 	poisoned map[*ssa.Package]string
+	okGlobals map[*ssa.Global]bool
 	inInit   bool
 	initDone map[*ssa.Package]bool
 	rtErrT   types.Type
